@@ -687,7 +687,7 @@ func admissionPoints(c *Ctx, f *ssa.Function, emT string) ([]ssa.Instruction, []
 				okH = false
 				continue
 			}
-			w, _ := (&Cut{Fn: h, Target: isInstr(ret), Sep: isAdd}).Run(c)
+			w, _ := (&Cut{Fn: h, Target: isInstr(ret), EdgeCut: failCut(ret), Sep: isAdd}).Run(c)
 			if b && w != "" {
 				okH = false // returns true without admitting
 			}
